@@ -1,5 +1,323 @@
-(* LockIO.v — stub: replaced by the real decoder/runner when the property is built. *)
-From Coq Require Import List.
-From M Require Import Sx.
+(* LockIO.v — the concrete instance of Lock.v used by the correspondence check (kind 10):
+   a small flat machine (states, first-match transition table, models; machine-level callbacks
+   prepare_event / before_state_change / after_state_change / finalize_event, each a segment
+   boundary; callbacks may raise or call the machine again), macro steps (= the steps the
+   harness can observe without source hooks), decoding of cases and encoding of observations.
+
+   case = [mode, cfg, machine, calls, progs, sched]
+     mode    0: run the schedule        1: enumerate maximal schedules (budget = hd sched)
+     cfg     [machine_context lock ids, [[model, [lock ids]] ...], hierarchical?]   lock 0 = the default
+             PicklableLock (not instrumented: its acquire/release are not observable), ids >= 1 = user contexts
+     machine [state ids, [[event, src, dst] ...], [[model, initial state] ...]]
+     calls   [[cid, kind, a, b, c, [[slot, action, arg] ...]] ...]
+             kind 0 event a=model b=event | 1 set_state a=model b=state | 2 add_transition a=event b=src c=dst
+                  3 add_states a=state | 4 remove_model a=model
+             slot 0 prepare_event 1 before 2 after 3 finalize; action 1 raise | 2 nested call arg=cid
+     progs   [[cid ...] ...]  (thread i+1 issues the i-th list)
+     sched   [tid ...]        (macro steps)
+   observation = [1, [log, final, alldone, serial_ok]]  *)
+From Coq Require Import List Arith Bool.
+From M Require Import Sx Lock.
 Import ListNotations.
-Definition run_lock_case (x : sx) : sx := L [N 0].
+
+(* ------------------------------------------------------------------ concrete machine *)
+Inductive cres : Type := RVal (v : nat) (* 0 False 1 True 2 None *) | RExn (k : nat) (* 2 ValueError 3 user *).
+
+Record cspec : Type := mkSpec {
+  s_cid : nat; s_kind : nat; s_a : nat; s_b : nat; s_c : nat;
+  s_script : list (nat * (nat * nat))
+}.
+
+Record cms : Type := mkMS {
+  m_states : list nat;
+  m_trans : list (nat * (nat * nat));
+  m_models : list (nat * nat);
+  m_reg : list nat
+}.
+
+Record evp : Type := mkEvp { e_cid : nat; e_m : nat; e_dst : nat; e_res : cres }.
+
+Inductive kk : Type :=
+| KMeth (cid : nat) | KInit (cid : nat) | KCb (sl : nat) (e : evp) | KPost (sl : nat) (e : evp).
+
+Definition citem : Type := (nat * (nat * nat))%type.    (* slot, model, state seen *)
+
+Fixpoint find_spec (tab : list cspec) (cid : nat) : option cspec :=
+  match tab with
+  | [] => None
+  | s :: r => if Nat.eqb (s_cid s) cid then Some s else find_spec r cid
+  end.
+
+Definition state_of (ms : cms) (m : nat) : nat :=
+  match assoc_nat (m_models ms) m with Some s => s | None => 999 end.
+
+Fixpoint set_assoc (l : list (nat * nat)) (m s : nat) : list (nat * nat) :=
+  match l with
+  | [] => []
+  | (m', s') :: r => if Nat.eqb m m' then (m', s) :: r else (m', s') :: set_assoc r m s
+  end.
+
+Definition set_model_state (ms : cms) (m s : nat) : cms :=
+  mkMS (m_states ms) (m_trans ms) (set_assoc (m_models ms) m s) (m_reg ms).
+
+Fixpoint first_dst (tr : list (nat * (nat * nat))) (e src : nat) : option nat :=
+  match tr with
+  | [] => None
+  | (e', (s', d)) :: r => if Nat.eqb e e' && Nat.eqb src s' then Some d else first_dst r e src
+  end.
+
+Definition call_of_spec (s : cspec) : call :=
+  mkCall (match s_kind s with 0 => KEvent (s_a s) | _ => KMethod end) (s_cid s).
+
+Definition script_at (s : cspec) (sl : nat) : nat * nat :=
+  match assoc_nat (s_script s) sl with Some x => x | None => (0, 0) end.
+
+Section Concrete.
+  Variable tab : list cspec.
+
+  Definition c_start (c : call) : kk :=
+    match find_spec tab (c_id c) with
+    | Some s => match s_kind s with 0 => KInit (c_id c) | _ => KMeth (c_id c) end
+    | None => KMeth (c_id c)
+    end.
+
+  Definition c_post (sl : nat) (e : evp) (ms : cms) : cms * status (K:=kk) (R:=cres) :=
+    match sl with
+    | 0 => (ms, SMore (KCb 1 e))
+    | 1 => (set_model_state ms (e_m e) (e_dst e), SMore (KCb 2 e))
+    | 2 => (ms, SMore (KCb 3 e))
+    | _ => (ms, SDone (e_res e))
+    end.
+
+  Definition c_resume (k : kk) (ms : cms) : cms * list citem * status (K:=kk) (R:=cres) :=
+    match k with
+    | KMeth cid =>
+        match find_spec tab cid with
+        | None => (ms, [], SDone (RExn 9))
+        | Some s =>
+            match s_kind s with
+            | 1 => if existsb (Nat.eqb (s_b s)) (m_states ms)
+                   then (set_model_state ms (s_a s) (s_b s), [], SDone (RVal 2))
+                   else (ms, [], SDone (RExn 2))
+            | 2 => (mkMS (m_states ms) (m_trans ms ++ [(s_a s, (s_b s, s_c s))]) (m_models ms) (m_reg ms),
+                    [], SDone (RVal 2))
+            | 3 => (mkMS (m_states ms ++ [s_a s]) (m_trans ms) (m_models ms) (m_reg ms), [], SDone (RVal 2))
+            | 4 => (mkMS (m_states ms) (m_trans ms) (m_models ms)
+                         (filter (fun x => negb (Nat.eqb x (s_a s))) (m_reg ms)), [], SDone (RVal 2))
+            | _ => (ms, [], SDone (RExn 9))
+            end
+        end
+    | KInit cid =>
+        match find_spec tab cid with
+        | None => (ms, [], SDone (RExn 9))
+        | Some s =>
+            let m := s_a s in
+            match first_dst (m_trans ms) (s_b s) (state_of ms m) with
+            | None => (ms, [], SMore (KCb 3 (mkEvp cid m 0 (RVal 0))))
+            | Some d => (ms, [], SMore (KCb 0 (mkEvp cid m d (RVal 1))))
+            end
+        end
+    | KCb sl e =>
+        let it := (sl, (e_m e, state_of ms (e_m e))) in
+        match find_spec tab (e_cid e) with
+        | None => (ms, [it], SDone (RExn 9))
+        | Some s =>
+            match script_at s sl with
+            | (1, _) => match sl with
+                        | 3 => (ms, [it], SDone (e_res e))          (* finalize swallows *)
+                        | _ => (ms, [it], SMore (KCb 3 (mkEvp (e_cid e) (e_m e) (e_dst e) (RExn 3))))
+                        end
+            | (2, cid') =>
+                match find_spec tab cid' with
+                | Some s' => (ms, [it], SCall (call_of_spec s') (KPost sl e))
+                | None => let (ms', st) := c_post sl e ms in (ms', [it], st)
+                end
+            | _ => let (ms', st) := c_post sl e ms in (ms', [it], st)
+            end
+        end
+    | KPost sl e => let (ms', st) := c_post sl e ms in (ms', [], st)
+    end.
+
+  Definition c_ret (k : kk) (r : cres) : kk := k.
+
+  Definition c_vis (k : kk) : bool := match k with KCb _ _ => true | _ => false end.
+End Concrete.
+
+(* ------------------------------------------------------------------ macro steps *)
+Definition cgstate := gstate (MS:=cms) (K:=kk) (R:=cres) (I:=citem).
+Definition cthread := thread (K:=kk) (R:=cres) (I:=citem).
+
+Definition ctx_visible (x : ctx) : bool :=
+  match x with CLock 0 => false | CLock _ => true | CIdent => false end.
+
+(* is the next step of the thread one the harness can stop before? *)
+Definition next_visible (th : cthread) : bool :=
+  match top_act th with
+  | None => true                                   (* before a top-level call *)
+  | Some a =>
+      match a_phase a with
+      | PAcq (x :: _) => ctx_visible x
+      | PAcq [] => false
+      | PRun k => c_vis k
+      | PRel _ => match a_held a with x :: _ => ctx_visible x | [] => false end
+      end
+  end.
+
+Section Macro.
+  Variable tab : list cspec.
+  Variable cfg : lcfg.
+  Definition cstep : nat -> cgstate -> cgstate := step (c_start tab) (c_resume tab) c_ret cfg.
+
+  Fixpoint macro_go (fuel : nat) (first : bool) (t : nat) (g : cgstate) : cgstate :=
+    match fuel with
+    | 0 => g
+    | S f =>
+        if thread_done (g_th g t) then g
+        else if first || negb (next_visible (g_th g t))
+        then (if blocked g t then cstep t g else macro_go f false t (cstep t g))
+        else g
+    end.
+  Definition macro_step (t : nat) (g : cgstate) : cgstate :=
+    if Nat.eqb t 0 then g else macro_go 60 true t g.
+  Definition macro_run (sched : list nat) (g : cgstate) : cgstate :=
+    fold_left (fun g t => macro_step t g) sched g.
+
+  Definition last_is_blocked (g : cgstate) : bool :=
+    match rev (g_log g) with EvBlocked _ _ :: _ => true | _ => false end.
+
+  (* does a macro step of t make progress (not finished, not just a blocked attempt)? *)
+  Definition macro_enabled (g : cgstate) (t : nat) : bool :=
+    negb (thread_done (g_th g t)) &&
+    (let g' := macro_step t g in
+     negb (Nat.eqb (length (g_log g')) (S (length (g_log g))) && last_is_blocked g')).
+
+  (* all maximal macro schedules without blocked attempts, depth-first, at most [budget] *)
+  Fixpoint enum (fuel : nat) (n : nat) (g : cgstate) (pre : list nat) (budget : nat)
+    : list (list nat) * nat :=
+    match fuel with
+    | 0 => ([rev pre], pred budget)
+    | S f =>
+        let ts := filter (macro_enabled g) (seq 1 n) in
+        match ts with
+        | [] => ([rev pre], pred budget)
+        | _ =>
+            fold_left (fun (acc : list (list nat) * nat) t =>
+                         match snd acc with
+                         | 0 => acc
+                         | b => let (l, b') := enum f n (macro_step t g) (t :: pre) b in (fst acc ++ l, b')
+                         end) ts ([], budget)
+        end
+    end.
+End Macro.
+
+(* ------------------------------------------------------------------ decoding *)
+Definition d_nats := d_list d_nat.
+Definition d_cfg (x : sx) : option lcfg :=
+  match x with
+  | L [mc; mods; h] =>
+      do mc' <- d_nats mc;
+      do mods' <- d_list (d_pair d_nat d_nats) mods;
+      do h' <- d_bool h;
+      Some (mkCfg mc' mods' h')
+  | _ => None
+  end.
+
+Definition d_triple (x : sx) : option (nat * (nat * nat)) :=
+  match x with
+  | L [a; b; c] => do a' <- d_nat a; do b' <- d_nat b; do c' <- d_nat c; Some (a', (b', c'))
+  | _ => None
+  end.
+
+Definition d_machine (x : sx) : option cms :=
+  match x with
+  | L [sts; trs; mods] =>
+      do sts' <- d_nats sts;
+      do trs' <- d_list d_triple trs;
+      do mods' <- d_list (d_pair d_nat d_nat) mods;
+      Some (mkMS sts' trs' mods' (map fst mods'))
+  | _ => None
+  end.
+
+Definition d_spec (x : sx) : option cspec :=
+  match x with
+  | L [cid; k; a; b; c; scr] =>
+      do cid' <- d_nat cid; do k' <- d_nat k; do a' <- d_nat a; do b' <- d_nat b; do c' <- d_nat c;
+      do scr' <- d_list d_triple scr;
+      Some (mkSpec cid' k' a' b' c' scr')
+  | _ => None
+  end.
+
+(* ------------------------------------------------------------------ encoding *)
+Definition enc_res (r : cres) : sx :=
+  match r with RVal v => L [N 0; N v] | RExn k => L [N 1; N k] end.
+
+Definition lock_id (x : ctx) : option nat := match x with CLock l => Some l | CIdent => None end.
+
+Definition e_lev (e : lev (R:=cres) (I:=citem)) : list sx :=
+  match e with
+  | EvAcq t (CLock (S l)) => [L [N 0; N t; N (S l)]]
+  | EvRel t (CLock (S l)) => [L [N 1; N t; N (S l)]]
+  | EvBlocked t (CLock l) => [L [N 3; N t; N l]]
+  | EvSeg t c its => map (fun it : citem => L [N 2; N t; N (c_id c); N (fst it); N (fst (snd it)); N (snd (snd it))]) its
+  | EvRet t c r => [L [N 4; N t; N (c_id c); enc_res r]]
+  | _ => []
+  end.
+
+Definition e_final (ms : cms) : sx :=
+  L [e_list (e_pair e_nat e_nat) (m_models ms); e_list e_nat (m_reg ms); e_list e_nat (m_states ms);
+     e_list (fun t : nat * (nat * nat) => L [N (fst t); N (fst (snd t)); N (snd (snd t))]) (m_trans ms)].
+
+Fixpoint sx_eqb (a b : sx) : bool :=
+  match a, b with
+  | N x, N y => Nat.eqb x y
+  | L l, L m =>
+      (fix go (l : list sx) (m : list sx) : bool :=
+         match l, m with
+         | [], [] => true
+         | x :: l', y :: m' => sx_eqb x y && go l' m'
+         | _, _ => false
+         end) l m
+  | _, _ => false
+  end.
+
+Definition e_done (d : list (cres * list citem)) : sx :=
+  e_list (fun p : cres * list citem =>
+            L [enc_res (fst p); e_list (fun it : citem => L [N (fst it); N (fst (snd it)); N (snd (snd it))]) (snd p)]) d.
+
+Definition run_lock_case (x : sx) : sx :=
+  match x with
+  | L [mode; cfgx; mx; callsx; progsx; schedx] =>
+      match d_nat mode, d_cfg cfgx, d_machine mx, d_list d_spec callsx, d_list d_nats progsx, d_nats schedx with
+      | Some mode', Some cfg, Some ms0, Some tab, Some progs, Some sched =>
+          let n := length progs in
+          let prog_of := fun t =>
+            match t with
+            | 0 => []
+            | S i => flat_map (fun cid => match find_spec tab cid with
+                                          | Some s => [call_of_spec s] | None => [] end)
+                              (nth i progs [])
+            end in
+          let g0 : cgstate := init prog_of ms0 in
+          match mode' with
+          | 0 =>
+              let g := macro_run tab cfg sched g0 in
+              let alldone := forallb (fun t => thread_done (g_th g t)) (seq 1 n) in
+              let serial :=
+                if alldone then
+                  match serial_run (c_start tab) (c_resume tab) c_ret 200 (map snd (g_acq g)) ms0 with
+                  | Some (msf, l) =>
+                      if sx_eqb (e_final msf) (e_final (g_ms g)) &&
+                         sx_eqb (e_done l) (e_done (map (fun d => (d_res d, d_items d)) (g_done g)))
+                      then 1 else 0
+                  | None => 0
+                  end
+                else 2 in
+              L [N 1; L [L (flat_map e_lev (g_log g)); e_final (g_ms g); e_bool alldone; N serial]]
+          | _ =>
+              let budget := match sched with b :: _ => b | [] => 100 end in
+              L [N 2; e_list (e_list e_nat) (fst (enum tab cfg 200 n g0 [] budget))]
+          end
+      | _, _, _, _, _, _ => L [N 0]
+      end
+  | _ => L [N 0]
+  end.
